@@ -61,13 +61,13 @@ UpgradeOutcome(asks, backendSwitches) ==
     ELSE [status |-> 200, tunnel |-> FALSE, upgradeSeen |-> asks]     \* an ordinary exchange; Upgrade is dropped unless asked for
 
 (* ----- part 2: exchange outcomes ----- *)
-Modes == {"ok", "refused", "close_before_head", "reset_before_head", "header_timeout", "client_cancel",
+Modes == {"ok", "refused", "close_before_head", "reset_before_head", "header_timeout", "client_cancel", "precancel",
           "abort_body", "other_error"}
 WantStatus(mode) ==
   CASE mode = "ok" -> 200
     [] mode \in {"refused", "close_before_head", "reset_before_head"} -> 502
     [] mode = "header_timeout" -> 504
-    [] mode = "client_cancel" -> 499
+    [] mode \in {"client_cancel", "precancel"} -> 499
     [] mode = "other_error" -> 500
     [] mode = "abort_body" -> 200       \* the head was already relayed; the connection is aborted
 (* listener events of one exchange; Deferred = FALSE is the code as found (straight-line notification) *)
